@@ -139,8 +139,25 @@ func ruleOpExhaustive(c *Ctx, pkgs ...string) {
 				continue
 			}
 			var fnStack []string
+			var curFd *ast.FuncDecl
+			// statement lists, to find what precedes a switch in its block
+			blockOf := map[ast.Stmt][]ast.Stmt{}
+			ast.Inspect(file, func(n ast.Node) bool {
+				var list []ast.Stmt
+				switch b := n.(type) {
+				case *ast.BlockStmt:
+					list = b.List
+				case *ast.CaseClause:
+					list = b.Body
+				}
+				for _, st := range list {
+					blockOf[st] = list
+				}
+				return true
+			})
 			ast.Inspect(file, func(n ast.Node) bool {
 				if fd, ok := n.(*ast.FuncDecl); ok {
+					curFd = fd
 					fnStack = []string{fd.Name.Name}
 					if fd.Recv != nil && len(fd.Recv.List) == 1 {
 						fnStack = []string{recvTypeName(fd.Recv.List[0].Type) + "." + fd.Name.Name}
@@ -160,6 +177,8 @@ func ruleOpExhaustive(c *Ctx, pkgs ...string) {
 				}
 				fname := pk + "." + strings.Join(fnStack, "")
 				covered := map[int64]bool{}
+				var paramCase *ast.Ident
+				contextHelper := false
 				hasStrictDefault := false
 				hasDefault := false
 				for _, s := range sw.Body.List {
@@ -189,6 +208,94 @@ func ruleOpExhaustive(c *Ctx, pkgs ...string) {
 					for _, e := range cc.List {
 						if v, ok := constIntOf(p.TypesInfo, e); ok {
 							covered[v] = true
+						} else if id, ok := e.(*ast.Ident); ok {
+							paramCase = id
+						}
+					}
+				}
+				// an opcode dealt with by a guard in front of the switch: `if tag == OpX { …; continue }`
+				tagStr := types.ExprString(sw.Tag)
+				for _, st := range blockOf[sw] {
+					if st == ast.Stmt(sw) {
+						break
+					}
+					ifs, ok := st.(*ast.IfStmt)
+					if !ok || ifs.Else != nil || len(ifs.Body.List) == 0 {
+						continue
+					}
+					be, ok := ifs.Cond.(*ast.BinaryExpr)
+					if !ok || be.Op != token.EQL || types.ExprString(be.X) != tagStr {
+						continue
+					}
+					v, ok := constIntOf(p.TypesInfo, be.Y)
+					if !ok {
+						continue
+					}
+					switch last := ifs.Body.List[len(ifs.Body.List)-1].(type) {
+					case *ast.BranchStmt:
+						if last.Tok == token.CONTINUE || last.Tok == token.BREAK {
+							covered[v] = true
+						}
+					case *ast.ReturnStmt:
+						covered[v] = true
+					}
+				}
+				// a case that is a parameter of the enclosing function: the opcodes its callers pass
+				if paramCase != nil && curFd != nil {
+					pi := -1
+					k := 0
+					for _, f := range curFd.Type.Params.List {
+						for _, nm := range f.Names {
+							if p.TypesInfo.Defs[nm] == p.TypesInfo.Uses[paramCase] {
+								pi = k
+							}
+							k++
+						}
+					}
+					allConst := pi >= 0
+					var passed []int64
+					callers := map[string]bool{}
+					if pi >= 0 {
+						for _, f2 := range p.Syntax {
+							var enc string
+							ast.Inspect(f2, func(m ast.Node) bool {
+								if fd2, ok := m.(*ast.FuncDecl); ok {
+									enc = fd2.Name.Name
+								}
+								call, ok := m.(*ast.CallExpr)
+								if !ok {
+									return true
+								}
+								if id, ok := call.Fun.(*ast.Ident); ok && p.TypesInfo.Uses[id] == p.TypesInfo.Defs[curFd.Name] && pi < len(call.Args) {
+									callers[enc] = true
+									if v, ok := constIntOf(p.TypesInfo, call.Args[pi]); ok {
+										passed = append(passed, v)
+									} else {
+										allConst = false
+									}
+								}
+								return true
+							})
+						}
+					}
+					if allConst && len(passed) > 0 {
+						// judged per call site: constants of the switch plus the opcode passed there
+						// opcodes missing at some site
+						missAt := map[int64]bool{}
+						for _, v := range passed {
+							for k := range opNames {
+								if !covered[k] && k != v {
+									missAt[k] = true
+								}
+							}
+						}
+						for k := range opNames {
+							if !missAt[k] {
+								covered[k] = true
+							}
+						}
+						if len(callers) == 1 && callers["Context"] {
+							contextHelper = true
 						}
 					}
 				}
@@ -206,7 +313,7 @@ func ruleOpExhaustive(c *Ctx, pkgs ...string) {
 					c.ok("R-OP-EXHAUSTIVE", key, sw.Pos(), "all four opcodes handled")
 				case hasStrictDefault:
 					c.ok("R-OP-EXHAUSTIVE", key, sw.Pos(), "unhandled opcodes "+strings.Join(missing, ",")+" reach a default arm that panics or returns an error")
-				case fname == "mdiff.Context" && len(missing) == 1 && (missing[0] == "OpCopy" || missing[0] == "OpDrop"):
+				case (fname == "mdiff.Context" && len(missing) == 1 || contextHelper) && onlyOtherSide(missing):
 					c.ok("R-OP-EXHAUSTIVE", key, sw.Pos(), "exempt: by definition of the context format its left half has no "+missing[0]+" lines on this side")
 				default:
 					d := ""
@@ -1300,8 +1407,9 @@ func ruleBoundSide(c *Ctx, pkg string) {
 				return
 			}
 			own, sibling := false, ""
+			ownStrict, ownUpper := false, false
 			for _, cm := range cmpsAt(in.Block()) {
-				for _, pr := range [][2]ssa.Value{{cm.X, cm.Y}, {cm.Y, cm.X}} {
+				for pi, pr := range [][2]ssa.Value{{cm.X, cm.Y}, {cm.Y, cm.X}} {
 					if pr[0] != idx {
 						continue
 					}
@@ -1315,6 +1423,17 @@ func ruleBoundSide(c *Ctx, pkg string) {
 					}
 					if sameField(g, f) {
 						own = true
+						op := cm.Op
+						if pi == 1 {
+							op = flipOp(op)
+						}
+						// idx op len(own)
+						switch op {
+						case token.LSS:
+							ownStrict, ownUpper = true, true
+						case token.LEQ:
+							ownUpper = true
+						}
 					} else if _, isSlice := g.Type().Underlying().(*types.Slice); isSlice {
 						sibling = g.Name()
 					}
@@ -1325,6 +1444,10 @@ func ruleBoundSide(c *Ctx, pkg string) {
 			}
 			c.sawFn(name)
 			key := fmt.Sprintf("%s:%s[%s]", name, f.Name(), ksym(idx))
+			if own && ownUpper && !ownStrict {
+				c.bad("R-BOUND-SIDE", key, in.Pos(), "the index into ."+f.Name()+" is only known to be ≤ len(."+f.Name()+"), not < it: the position one past the end is let through and the access panics")
+				return
+			}
 			c.judge(own, "R-BOUND-SIDE", key, in.Pos(), "bounded by its own length", "the index into ."+f.Name()+" is tested against len(."+sibling+") and never against len(."+f.Name()+"): the bound is taken from the wrong side")
 		})
 	}
@@ -2230,6 +2353,9 @@ func ruleMergeTarget(c *Ctx) {
 //     span), so the lines keep their order; and from the join every path to the
 //     merge of the two edit lists drops the joined edit from its list.
 func ruleMdiffPairs(c *Ctx) {
+	ruleMergedTail(c)
+	ruleTrimAmount(c)
+
 	P := c.P
 	c.rule("R-COND-MIRROR", 2, "a same-chunk range test on one side is accompanied by the same test on the other side")
 	c.rule("R-CONTEXT-CONTIGUOUS", 1, "in findContext the edge taken on unequal lines leaves the loop")
@@ -2446,4 +2572,17 @@ func ruleMdiffPairs(c *Ctx) {
 			})
 		}
 	}
+}
+
+// onlyOtherSide: what a half of the context format leaves out — the lines that exist only on the other side.
+func onlyOtherSide(missing []string) bool {
+	if len(missing) == 0 || len(missing) > 2 {
+		return false
+	}
+	for _, m := range missing {
+		if m != "OpCopy" && m != "OpDrop" {
+			return false
+		}
+	}
+	return true
 }
